@@ -40,6 +40,10 @@ func main() {
 		gcsWorkerMain()
 		return
 	}
+	if os.Args[1] == "real-worker" {
+		realWorkerMain()
+		return
+	}
 	comp, ok := components[os.Args[1]]
 	if !ok {
 		fmt.Fprintf(os.Stderr, "unknown component %q\n", os.Args[1])
